@@ -216,6 +216,7 @@ func generate(prop, tier string, seed uint64, jl *jobList) int {
 		genInjected(r, thorough, "fail", jl.addFlow)
 	case "C05":
 		genInjected(r, thorough, "cancel", jl.addFlow)
+		genWaitCancelRuns(r, leafKinds(), jl.addFlow)
 	case "leafcancel":
 		genLeafInjected(r, "cancel", jl.addFlow)
 		genWaitCancelRuns(r, leafKinds(), jl.addFlow)
